@@ -330,3 +330,42 @@ def gen_inputs(isa_obj, specs, r, n_directed, n_random, prefixes=True):
     for _ in range(n_random):
         out.append(("random", bytes(r.getrandbits(8) for _ in range(r.randrange(0, isa_obj.maxlen + 5)))))
     return out
+
+
+# ---------------------------------------------------------------------------------------
+# replay helpers (./check Cxx --replay file)
+# ---------------------------------------------------------------------------------------
+
+def replay_decode_case(rec):
+    """re-run a recorded decoder case on the current tree: real decode vs most-constrained-first scan,
+    plus the recorded variant / history if any.  Returns 0 if they agree now, 1 otherwise."""
+    import json
+    case = rec.get("case") or {}
+    label = case.get("isa")
+    if not label:
+        print(json.dumps(rec, indent=1)[:4000]); return 0
+    name = label.split("/")[0]
+    ok, bad = load_all([name])
+    if name not in ok:
+        print("ISA module %s does not import: %s" % (name, bad.get(name))); return 1
+    I = ok[name]
+    I.set_mode(case.get("mode", 0) or 0)
+    specs = module_specs(I, case.get("mode", 0) or 0)
+    e = -1 if I.be else 1
+    rc = 0
+    seqs = []
+    if "history" in case:
+        seqs = [bytes.fromhex(h[0] if isinstance(h, list) else h) for h in case["history"]]
+    else:
+        seqs = [bytes.fromhex(case["bytes"])] + ([bytes.fromhex(case["variant"])] if case.get("variant") else [])
+    reset(I.dis)
+    for bs in seqs:
+        real = real_decode(I.dis, bs, fresh="history" not in case)
+        ref = ref_scan(I.dis, specs, bs, e)
+        rf = (real[0], fingerprint(real[1]) if real[0] == "ok" else real[1])
+        sf = (ref[0], fingerprint(ref[1]) if ref[0] == "ok" else ref[1])
+        print("%s  decode(%s)\n   real: %r\n   scan: %r\n   pending after call: %r" % (label, bs.hex(), rf, sf, I.dis._disassembler__i))
+        if rf != sf or I.dis._disassembler__i is not None:
+            rc = 1
+    print("recorded: %s" % rec.get("what", "")[:400])
+    return rc
